@@ -1,4 +1,5 @@
 import Ach.Model.Reversal
+import Ach.Generated.Topics
 import Ach.Proofs.Classify
 /-!
 # C13 — Reversal flips every entry and yields a valid reversing file
@@ -152,5 +153,8 @@ example : let b : RBatch := { serviceClass := 200, description := "PAYROLL".toLi
                               ctlDebit := 57, ctlCredit := 100, ctlServiceClass := 200 }
     b.entries ≠ [] ∧ (∀ e ∈ b.entries, e.code ∈ reversibleCodes) ∧
     (reverseBatch tbl "240102".toList b).entries.map (·.code) = [27, 22, 52] := by decide
+
+/-- F: `File.Reversal` has the body `Ach.Model.Reversal` was written against (its switch is interpreted from the generated table) -/
+theorem reversal_function_unchanged : hashes_reversal = [("File.Reversal", 3157941019159632718)] := by decide +kernel
 
 end Ach.Props.C13
